@@ -12,6 +12,9 @@ def model_check(ctx, quick):
     vlib.mc(ctx, "LifecycleT", "MC_LifecycleT_TRUE.cfg", timeout=1200)
     vlib.mc(ctx, "LifecycleT", "MC_LifecycleT_FALSE.cfg", timeout=1200)
     vlib.mc(ctx, "LifecycleCL", "MC_LifecycleCL.cfg", timeout=1200)
+    # secondary input kinds (qtransform: extra mapped input; transform: extra input) read by the transform function
+    vlib.mc(ctx, "LifecycleQT", "MC_LifecycleQT_extra.cfg", timeout=1200)
+    vlib.mc(ctx, "LifecycleT", "MC_LifecycleT_extra.cfg", timeout=1200)
     # the named deviation must be reproduced by the model (documented design counterexample)
     r = vlib.tlc(ctx, "LifecycleQT", "MC_LifecycleQT_ignore.cfg", timeout=600)
     ctx.cov["named_deviation_InputFirstSeenTearingDown_in_model"] = (r.inv == "FinBeforeOut")
@@ -29,12 +32,12 @@ def run(ctx, whats, nbeh, depth, judge="C07"):
     behs[5] = [c("arm"), c("create", 2, 1), c("create", 1, 1), c("addX", 1), c("td", 1), c("release"), c("wait"),
                c("arm"), c("update", 2, 2), c("remX", 1), c("destroy", 1), c("release"), c("wait")]
     # the same beginning, but nobody destroys the input: once the foreign finalizer is gone the controller must clean the output up
-    # although the input never carried its finalizer (configurations 5 and 8: ignore-teardown-until / -while; 12 configurations)
-    for idx in (17, 20):
+    # although the input never carried its finalizer (configurations 5 and 8: ignore-teardown-until / -while; 14 configurations)
+    for idx in (19, 22):
         if len(behs) > idx:
             behs[idx] = [c("arm"), c("create", 2, 1), c("create", 1, 1), c("addX", 1), c("td", 1), c("release"), c("wait"),
                          c("remX", 1), c("wait")]
-    # optional mapping (configuration 11 of 12): an input that carries the controller's finalizer stops being mapped, then is torn down
+    # optional mapping (configuration 11 of 14): an input that carries the controller's finalizer stops being mapped, then is torn down
     if len(behs) > 11:
         behs[11] = [c("create", 1, 1), c("create", 2, 2), c("wait"), c("update", 1, 3), c("wait"), c("td", 1), c("wait")]
     ctx.cov["directed_known_finding_scenarios"] = 1
@@ -53,6 +56,8 @@ def run(ctx, whats, nbeh, depth, judge="C07"):
     details = [x for x in r.out.splitlines() if x.startswith('<<"DETAIL"')]
     ctx.cov["traces_validated_against_impl"] += len(traces)
     ctx.cov["writes_judged"] = len([x for x in recs if x["ev"] == "w"])
+    ctx.cov["secondary_input_writes"] = len([x for x in recs if x["ev"] == "w" and x["kind"] == "ext"])
+    ctx.cov["quiet_outputs_with_secondary_contribution"] = len([o for x in recs if x["ev"] == "quiet" for o in x["outs"] if o["v"]["val"] % 10 != 0])
     ctx.sample({"write_log_head": [{k: v for k, v in x.items() if k in ("ev", "kind", "id", "op", "v")} for x in recs[1:7]]})
     bad, other = set(), 0
     for i, line in enumerate(mism):
